@@ -731,9 +731,7 @@ func c11Run(tb *testing.T, t *rapid.T, vk *vkCtx, protos []protocol.ConsensusVer
 		n.Quiesce()
 		db, latest := n.DBRound(), n.L.Latest()
 		if db == 1 {
-			// reported finding "tail-single-round-reload" (see TestVerif_C11_KnownTailRound1): excluded by construction
-			vk.Excluded(c11ExcludedRound1)
-			return
+			vk.Label("op:restart-with-single-persisted-tail-round") // class of the fixed finding 4887cb3d01
 		}
 		var err error
 		if reopen && n.OnDisk {
@@ -771,11 +769,8 @@ func c11Run(tb *testing.T, t *rapid.T, vk *vkCtx, protos []protocol.ConsensusVer
 	t.Repeat(actions)
 	// every history ends with: commit, restart of the primary node, and two more blocks of probes
 	w.Node.OpCommit()
-	for i := 0; i < 8 && w.Node.DBRound() == 1; i++ { // move away from the excluded class
-		c.block(t)
-		w.Node.OpCommit()
-	}
-	if n := w.Node; n.DBRound() != 1 {
+	{
+		n := w.Node
 		db, latest := n.DBRound(), n.L.Latest()
 		var err error
 		if n.OnDisk {
@@ -789,8 +784,6 @@ func c11Run(tb *testing.T, t *rapid.T, vk *vkCtx, protos []protocol.ConsensusVer
 		st := c.nodes[n]
 		st.restarts++
 		st.restartRound, st.restartDB = latest, db
-	} else {
-		vk.Excluded(c11ExcludedRound1)
 	}
 	c.sweep(t)
 	for i := 0; i < 2; i++ {
@@ -827,8 +820,6 @@ func c11Run(tb *testing.T, t *rapid.T, vk *vkCtx, protos []protocol.ConsensusVer
 	}
 }
 
-const c11ExcludedRound1 = "reload/reopen while the tracker DB is at round 1 (exactly one persisted tail round): reproduced separately, finding tail-single-round-reload"
-
 func c11Bucket(n int) string {
 	switch {
 	case n < 10:
@@ -862,17 +853,15 @@ func TestVerif_C11_Replay(t *testing.T) {
 	rapid.Check(t, func(rt *rapid.T) { c11Run(t, rt, vk, protos) })
 }
 
-// TestVerif_C11_KnownTailRound1 reproduces, on a hand-made history, the class excluded by construction from the unit
-// above. txTail.loadFromDisk skips the persisted rounds altogether when the txtail table holds exactly one round
-// (loop condition `old <= dbRound && dbRound > baseRound`; with one round baseRound == dbRound). The table holds one
-// round only while the tracker DB is at round 1. A ledger that is reloaded / reopened at that moment forgets the
-// transactions and leases of block 1: Ledger.CheckDup no longer reports them and the evaluator accepts an exact replay
-// while its window is still open. Reported through vk.Known when listed in KNOWN_FINDINGS.txt; until then counted as
-// excluded (this unit never fails on it).
-func TestVerif_C11_KnownTailRound1(t *testing.T) {
+// TestVerif_C11_TailRound1 is the frozen regression for the fixed finding 4887cb3d01 ("tail-single-round-reload"):
+// txTail.loadFromDisk skipped the persisted rounds altogether when the txtail table held exactly one round (loop
+// condition `old <= dbRound && dbRound > baseRound`; with one round baseRound == dbRound), which is the case while the
+// tracker DB is at round 1. A ledger reloaded / reopened at that moment forgot the transactions and leases of block 1:
+// Ledger.CheckDup no longer reported them and the evaluator accepted an exact replay inside its window.
+func TestVerif_C11_TailRound1(t *testing.T) {
 	vk := vkBegin(t, "C11")
-	vk.Rule("hand-made history on drawn worlds (MaxTxnLife 16, MaxAcctLookback 1): block 1 commits payment T (window [1,17]) and leased payment U; empty block 2; forced tracker commit (DB round 1); reloadLedger or close+OpenLedger; " +
-		"then T is asked through Ledger.CheckDup(current 3) and re-submitted to the evaluator of block 3, and a new transaction with U's lease is submitted. Non-trivial: the tracker DB was at round 1 at the restart. Distinct: by world.")
+	vk.Rule("regression, hand-made history on drawn worlds (MaxTxnLife 16, MaxAcctLookback 1): block 1 commits payment T (window [1,17]) and leased payment U; empty block 2; forced tracker commit (DB round 1); reloadLedger or close+OpenLedger; " +
+		"then T is asked through Ledger.CheckDup(current 3) and re-submitted to the evaluator of block 3, and a new transaction with U's lease is submitted: all three must be refused as duplicates. Non-trivial: the tracker DB was at round 1 at the restart. Distinct: by world.")
 	cv := engcRegisterProto(t, "verif-c11k-future-16", protocol.ConsensusFuture, func(p *config.ConsensusParams) { p.MaxTxnLife = 16 })
 	rapid.Check(t, func(rt *rapid.T) {
 		w := engcNewWorld(t, rt, engcOpts{Proto: cv, Profile: "pay", Label: vk.Label, CfgHook: func(name string, cfg *config.Local) {
@@ -918,8 +907,7 @@ func TestVerif_C11_KnownTailRound1(t *testing.T) {
 		atRound1 := w.Node.DBRound() == 1
 		vk.Case(atRound1, strings.Join(w.History, "|"))
 		if !atRound1 {
-			vk.Label("round1:not-reached")
-			return
+			rt.Fatalf("ENGINE: tracker DB round %d after the commit, expected 1", w.Node.DBRound())
 		}
 		l := w.Node.L
 		before := l.CheckDup(w.Proto, 3, 1, 17, st.ID(), ledgercore.Txlease{Sender: snd})
@@ -928,8 +916,10 @@ func TestVerif_C11_KnownTailRound1(t *testing.T) {
 		}
 		if w.Node.OnDisk && rapid.Bool().Draw(rt, "reopen") {
 			err = w.Node.OpReopen()
+			vk.Label("op:reopen")
 		} else {
 			err = w.Node.OpReload()
+			vk.Label("op:reload")
 		}
 		if err != nil {
 			rt.Fatalf("C11 VIOLATION: restart failed: %v", err)
@@ -939,21 +929,14 @@ func TestVerif_C11_KnownTailRound1(t *testing.T) {
 		b = w.BeginBlock(rt)
 		replayErr := b.SubmitSigned([]string{"replay-T"}, []transactions.SignedTxn{st})
 		leaseErr := b.Submit([]string{"lease-of-U"}, &txntest.Txn{Type: protocol.PaymentTx, Sender: snd, Receiver: rcv, Amount: 3, FirstValid: 3, LastValid: 10, Lease: lease})
-		if c11Class(after) == "txid-dup" && c11Class(replayErr) == "txid-dup" && c11Class(leaseErr) == "lease-dup" {
-			vk.Label("round1:answers-correctly")
-			return
+		if c11Class(after) != "txid-dup" || c11Class(replayErr) != "txid-dup" || c11Class(leaseErr) != "lease-dup" {
+			rt.Fatalf("C11 VIOLATION: MaxTxnLife 16, MaxAcctLookback 1: block 1 commits payment %v (window [1,17]) and a payment with lease 07..; block 2 empty; tracker commit -> DB round 1; reload/reopen; "+
+				"then CheckDup(current 3) for it = %v (before the restart: %v), the evaluator of block 3 answers the exact replay with %v and a new transaction on the active lease with %v\n%s",
+				st.ID(), after, before, replayErr, leaseErr, strings.Join(w.History, "\n"))
 		}
-		what := fmt.Sprintf("MaxTxnLife 16, MaxAcctLookback 1: block 1 commits payment %v (window [1,17]) and a payment with lease 07..; block 2 empty; tracker commit -> DB round 1; reload/reopen; "+
-			"then CheckDup(current 3) for it = %v (before the restart: %v), the evaluator of block 3 answers the exact replay with %v and a new transaction on the active lease with %v",
-			st.ID(), after, before, replayErr, leaseErr)
-		vk.Label("round1:reproduced")
-		if vkKnownListed("C11", "tail-single-round-reload") {
-			vk.Known("tail-single-round-reload", what, map[string]any{"history": w.History})
-		} else {
-			vk.Excluded("tail-single-round-reload (reproduced; finding reported but not listed in KNOWN_FINDINGS.txt)")
-		}
+		vk.Label("round1:duplicates-refused-after-restart")
 		if vk.WantSample(true) {
-			vk.Sample(true, map[string]any{"history": w.History, "observed": what})
+			vk.Sample(true, map[string]any{"history": w.History})
 		}
 	})
 }
